@@ -11,7 +11,7 @@ Proof. unfold linv, l_start; cbn. repeat split; try discriminate; try tauto. Qed
 Lemma linv_step s o : linv s -> linv (fst (lstep s o)).
 Proof.
   destruct s as [i t h r]. unfold linv. cbn [l_init l_tag l_handle l_running]. intros [Hi [Ht Hh]]. subst t h.
-  destruct o as [c| | | | | | | ]; cbn [lstep l_init]; destruct i; cbn [fst l_init l_tag l_handle l_running];
+  destruct o as [c| | | | | | | | ]; cbn [lstep l_init]; destruct i; cbn [fst l_init l_tag l_handle l_running];
     repeat split; try reflexivity; try discriminate; try (apply Hi); try tauto; try (intros _; discriminate); try (intro H; exfalso; now apply H).
 Qed.
 
